@@ -390,3 +390,57 @@ func TestRegr_C12_deep_reorg_crash(t *testing.T) {
 	}
 	vt.KnownFinding(t, col, "C12-deepreorg", fails, detail)
 }
+
+// TestRegr_C11_deep_reorg_load replays known finding C11-deepreorg with the real API only: after a
+// reorganisation deeper than the prune depth and a Clean, the old 10002-header chain (now a side
+// branch forking at height 1) overtakes again; Save (unconsolidated) and Load.
+func TestRegr_C11_deep_reorg_load(t *testing.T) {
+	col := evid.For("C11", "deep", "")
+	ctx := vt.Ctx()
+	store := memstore.New()
+	cfg := &headers.Config{Network: bitcoin.MainNet, MaxBranchDepth: 144}
+	repo := headers.NewRepository(cfg, store)
+	repo.DisableDifficulty()
+	repo.InitializeWithGenesis()
+	raws := chainOf(t, repo, 100)
+	ext := func(prev model.Hash, ts uint32, bits uint32, n, salt int) (model.Hash, uint32) {
+		for i := 0; i < n; i++ {
+			raw := model.RawHeader{Version: 1, Prev: prev, Timestamp: ts + 600, Bits: bits, Nonce: uint32(salt*100000 + i)}
+			raw.Merkle[0], raw.Merkle[1], raw.Merkle[2] = byte(i), byte(i>>8), byte(salt)
+			if err := repo.ProcessHeader(ctx, toWire(&raw)); err != nil {
+				t.Fatalf("header (salt %d #%d): %s", salt, i, err)
+			}
+			prev, ts = raw.Hash(), raw.Timestamp
+		}
+		return prev, ts
+	}
+	sideTip, sideTs := ext(raws[1].Hash(), raws[1].Timestamp, 0x1d00ffff, 2, 1)        // stale fork from height 1
+	mainTip, mainTs := ext(raws[100].Hash(), raws[100].Timestamp, 0x1d00ffff, 9902, 2) // main to 10002
+	ext(sideTip, sideTs, 0x1b00ffff, 2, 3)                                             // the stale fork overtakes
+	if err := repo.Clean(ctx); err != nil {
+		t.Fatalf("Clean: %s", err)
+	}
+	ext(mainTip, mainTs, 0x1b00ffff, 6, 4) // the old chain overtakes again (unconsolidated)
+	fails, detail := false, ""
+	if err := repo.Save(ctx); err != nil {
+		fails, detail = true, "Save failed: "+err.Error()
+	} else {
+		loaded := headers.NewRepository(cfg, store)
+		loaded.DisableDifficulty()
+		var err error
+		if p := vt.Catch(func() { err = loaded.Load(ctx) }); p != nil {
+			fails, detail = true, fmt.Sprintf("Load panicked: %v", p)
+		} else if err != nil {
+			fails, detail = true, "Load of what Save wrote failed: "+err.Error()
+		} else if p := vt.Catch(func() {
+			if loaded.Height() != repo.Height() || loaded.LastHash() != repo.LastHash() {
+				fails, detail = true, fmt.Sprintf("loaded tip height %d, original %d", loaded.Height(), repo.Height())
+			} else if err := loaded.Clean(ctx); err != nil {
+				fails, detail = true, "Clean after Load failed: "+err.Error()
+			}
+		}); p != nil {
+			fails, detail = true, fmt.Sprintf("loaded repository panicked: %v", p)
+		}
+	}
+	vt.KnownFinding(t, col, "C11-deepreorg", fails, detail)
+}
